@@ -162,3 +162,32 @@ T('c16i_random_method_renamed', ['C16'], (CK, r're:\b_get_random\b', '_fresh_key
 T('c16i_provides_tuple_call', ['C16'], (CK, '        self.provides = (arg_name,)\n', '        names = [arg_name]\n        self.provides = tuple(names)\n'))
 B('c16i_random_inline_short', ['C16'], 'R16.d', (CK, _SECRET, '        self.secret_key = secret_key or os.urandom(8)\n'))
 B('c16i_random_method_not_random', ['C16'], 'R16.d', (CK, '        return os.urandom(20)\n', "        return b'\\x00' * 20\n"))
+
+# ---------------------------------------------------------------- larger rewrites (helpers the loader dissolves)
+_REQ = _LOAD + '        response = next(**{self.arg_name: cookie})\n' + _STAMP + _KWARGS + _SAVE + '        return response\n'
+T('c16i_request_split_nested_helpers', ['C16'],
+  (CK, _REQ,
+   "        cookie = self._open(request)\n        response = next(**{self.arg_name: cookie})\n        self._close(cookie, response)\n        return response\n\n"
+   "    def _open(self, request):\n        return self._cookie_type.load_cookie(request, key=self.cookie_name, secret_key=self.secret_key)\n\n"
+   "    @staticmethod\n    def _is_timed(expiry):\n        return not (expiry == NEVER or expiry == SESSION)\n\n"
+   "    def _touch(self, cookie):\n        if '_expires' in cookie or not self._is_timed(self.expiry):\n            return\n"
+   "        cookie['_expires'] = time.time() + self.expiry\n\n"
+   "    def _save_options(self, cookie):\n        options = dict(key=self.cookie_name, domain=self.domain, path=self.path)\n"
+   "        options.update(secure=self.secure, httponly=self.http_only)\n        if '_expires' in cookie:\n            options['expires'] = cookie['_expires']\n"
+   "        return options\n\n"
+   "    def _close(self, cookie, response):\n        self._touch(cookie)\n        cookie.save_cookie(response, **self._save_options(cookie))\n"))
+T('c16i_expiry_local_alias', ['C16'],
+  (CK, _STAMP, "        expiry = self.expiry\n        if expiry != NEVER and expiry != SESSION:\n            if '_expires' not in cookie:\n"
+               "                cookie['_expires'] = time.time() + expiry\n"))
+T('c16i_unserialize_helpers', ['C16'],
+  _unser('        try:\n            return super(cls, JSONCookie).unserialize(cls._unwrap(string), secret_key)\n'
+         '        except Exception:\n            return cls._blank(secret_key)\n\n'
+         '    @staticmethod\n    def _unwrap(text):\n        return text.strip(\'"\')\n\n'
+         '    @classmethod\n    def _blank(cls, key):\n        return cls((), key, False)'))
+T('c16i_unquote_module_helper', ['C16'],
+  (CK, 'class JSONCookie(SecureCookie):\n', 'def _loads_b64(serializer, data):\n    text = base64.b64decode(data).decode(\'utf8\')\n    return serializer.loads(text)\n\n\n'
+                                            'class JSONCookie(SecureCookie):\n'),
+  (CK, _UNQUOTE, "        try:\n            return _loads_b64(cls.serialization_method, value)\n        except Exception:\n            raise UnquoteError()"))
+T('c16i_quote_one_expression', ['C16'],
+  (CK, _QUOTE + "        ret = b''.join(base64.b64encode(ret).splitlines()).strip()\n        return ret\n",
+       "        return b''.join(base64.b64encode(cls.serialization_method.dumps(value).encode('utf8')).splitlines()).strip()\n"))
